@@ -14,7 +14,7 @@ RULE = ("Greenlets: every chain main <- G0 <- G1 <- G2 (length 1..3) with every 
         "its child switched back; in main after everything parked; at each ask point every greenlet (main, each Gi, an unstarted "
         "one, a dead one) is extracted: suspended -> exactly the f_back walk from gr_frame; current -> exactly its own portion of "
         "the running stack (f_back walk from the asker to the greenlet boundary); unstarted/dead -> no frames; running in another "
-        "thread -> an error and no frames. This covers askers {outside, self, child, grandchild, parent}. Greenback: async/sync "
+        "thread (a non-main greenlet there, or that thread's MAIN greenlet while the thread runs in it, asked from this thread's main or a non-main greenlet; that thread's suspended and unstarted greenlets are extracted too) -> an error and no frames. This covers askers {outside, self, child, grandchild, parent}. Greenback: async/sync "
         "alternation depth 0..3 under trio (await_ given coroutines, and given non-coroutine awaitables) with the extraction taken from outside (callback while the task is blocked) and from "
         "inside (innermost sync or async function): the user functions must appear exactly once each, in call order, and no "
         "visible frame may belong to await_, _greenback_shim or trampoline. evaluations = extractions checked; "
@@ -160,6 +160,74 @@ def other_thread():
     return problems, 2
 
 
+def foreign_running(asker, nparked, depth):
+    """Thread B runs in its MAIN greenlet (blocked in gate.wait, `depth` calls deep) while `nparked` child greenlets of B are
+    suspended; thread A asks about every greenlet of B, from its main greenlet or from a non-main greenlet two calls deep."""
+    import greenlet
+    import stackscope
+    problems = []
+    box = {"parked": []}
+    ready = threading.Event()
+    gate = threading.Event()
+
+    def child_body():
+        greenlet.getcurrent().parent.switch("parked")
+
+    def wait_deep(d):
+        if d > 1:
+            return wait_deep(d - 1)
+        ready.set()
+        gate.wait(30)
+
+    def body():
+        box["main"] = greenlet.getcurrent()
+        for _ in range(nparked):
+            g = greenlet.greenlet(child_body)
+            g.switch()
+            box["parked"].append(g)
+        box["unstarted"] = greenlet.greenlet(child_body)
+        wait_deep(depth)
+        for g in box["parked"]:
+            g.switch()
+    t = threading.Thread(target=body)
+    t.start()
+    ready.wait(30)
+    n = [0]
+
+    def level2():
+        def ask(g):
+            n[0] += 1
+            with warnings.catch_warnings():
+                warnings.simplefilter("ignore")
+                return stackscope.extract(g, with_contexts=False)
+        st = ask(box["main"])
+        if st.error is None or "another thread" not in str(st.error):
+            problems.append("main greenlet running in another thread (asker %s): error is %r, frames %r" % (asker, st.error, [f.funcname for f in st.frames]))
+        if st.frames:
+            problems.append("main greenlet running in another thread (asker %s): some stack was returned: %r" % (asker, [f.funcname for f in st.frames]))
+        for i, g in enumerate(box["parked"]):
+            st = ask(g)
+            exp = walk(g.gr_frame)
+            if [f.pyframe for f in st.frames] != exp or st.error is not None:
+                problems.append("suspended greenlet %d of another thread (asker %s): %r expected %r error %r" % (
+                    i, asker, [f.funcname for f in st.frames], [f.f_code.co_name for f in exp], st.error))
+        st = ask(box["unstarted"])
+        if st.frames or st.error is not None:
+            problems.append("unstarted greenlet of another thread (asker %s): frames %r error %r" % (asker, [f.funcname for f in st.frames], st.error))
+
+    def level1():
+        level2()
+    try:
+        if asker == "main":
+            level1()
+        else:
+            greenlet.greenlet(level1).switch()
+    finally:
+        gate.set()
+        t.join(30)
+    return problems, n[0]
+
+
 # ------------------------------------------------------------------ greenback
 def run_greenback(k, leaf, vantage, wrap=False):
     """k alternations: a0 -> s0 -> a1 -> s1 ... ; leaf in {'async','sync'} is the kind of the innermost function;
@@ -256,6 +324,10 @@ def greenlet_cases(maxd):
         for depths in itertools.product(range(1, maxd + 1), repeat=n):
             yield {"leg": "chain", "depths": list(depths)}
     yield {"leg": "other_thread"}
+    for asker in ("main", "glet"):
+        for nparked in (0, 1, 2):
+            for depth in (1, 2):
+                yield {"leg": "foreign_running", "asker": asker, "nparked": nparked, "depth": depth}
 
 
 def greenback_cases(maxk):
@@ -271,6 +343,8 @@ def do_case(case):
         return run_chain(case["depths"])
     if case["leg"] == "other_thread":
         return other_thread()
+    if case["leg"] == "foreign_running":
+        return foreign_running(case["asker"], case["nparked"], case["depth"])
     return run_greenback(case["k"], case["leaf"], case["vantage"], case.get("wrap", False))
 
 
